@@ -40,6 +40,14 @@ def check(prog, run):
             has_elst = any(p.endswith("edts/elst") or p == "edts" for p in paths)
             cross = m.vq in c01.bases_in(trak[2])
             run.extra.setdefault("audio_trak_boxes", paths)
+            stts_ = c01.find_box(trak, b"stts")
+            if stts_ is not None:
+                c03.stts_values_rule(run, "R2", key, kind, stts_)
+            if has_elst and not cross:
+                # an offset mechanism exists but cannot be the *relative* start: it does not look at the video track at all
+                run.bad("R1", key + " edit list ignores the video start", "the audio trak has an edit list, but nothing in the trak depends on the video track's first timestamp: the delay it encodes cannot be "
+                        "`first audio time - first video time` (a stream whose video does not start at 0 is shifted by the video's start)")
+                continue
             run.check(has_elst or cross, "R1", key + " start-offset", "edit list present" if has_elst else "audio trak depends on the video queue's timestamps",
                       "the audio trak has no edit list and nothing in it depends on the video track's first timestamp: its timeline starts at 0, so audio whose first "
                       "timestamp differs from the first video timestamp is shifted (boxes: %s)" % sorted(set(p.split("/")[-1] for p in paths)))
